@@ -15,6 +15,7 @@ from . import ops
 from .values import CplxV, Unsupported, is_z3, to_z3
 
 _tid = itertools.count(1)
+GUARDS: list = []        # conditions under which the element currently being evaluated exists
 
 
 def dim_eq(a, b):
@@ -145,8 +146,10 @@ def _clamp(v, lo, hi):
     return ops.minimum(ops.maximum(v, lo), hi)
 
 
-def slice_bounds(sl, size):
-    """(start, length) of a unit-step slice of a dimension of `size`."""
+def slice_bounds(sl, size, ctx=None):
+    """(start, length) of a unit-step slice of a dimension of `size`.  torch clamps slice bounds
+    into [0, size]; with a path context the clamps are dropped when the path condition already
+    implies them (keeps shape terms readable and obligations small)."""
     if sl.step not in (None, 1):
         raise Unsupported("slice with a step")
     s = 0 if sl.start is None else norm_index(sl.start, size)
@@ -155,9 +158,15 @@ def slice_bounds(sl, size):
         s2 = min(max(s, 0), size)
         e2 = min(max(e, 0), size)
         return s2, max(e2 - s2, 0)
-    s2 = _clamp(s, 0, size)
-    e2 = _clamp(e, 0, size)
-    ln = ops.maximum(ops.sub(e2, s2), 0)
+    def clamp(v):
+        if ctx is not None and ctx.entails(to_z3(ops.b_and(ops.compare(_GE, v, 0), ops.compare(_LE, v, size)))):
+            return v
+        return _clamp(v, 0, size)
+    s2 = clamp(s)
+    e2 = clamp(e)
+    ln = ops.sub(e2, s2)
+    if not (ctx is not None and ctx.entails(to_z3(ops.compare(_GE, ln, 0)))):
+        ln = ops.maximum(ln, 0)
     return _simp(s2), _simp(ln)
 
 
@@ -189,7 +198,7 @@ def getitem(t: LamTensor, idx, ctx=None):
             raise Unsupported("too many indices for tensor")
         size = t.shape[src_dim]
         if isinstance(i, SliceV):
-            st, ln = slice_bounds(i, size)
+            st, ln = slice_bounds(i, size, ctx)
             plan.append(("slice", st))
             out_shape.append(ln)
         elif isinstance(i, LamTensor):
@@ -276,7 +285,7 @@ def setitem(t: LamTensor, idx, value, ctx=None):
     for i in idx:
         size = t.shape[src_dim]
         if isinstance(i, SliceV):
-            st, ln = slice_bounds(i, size)
+            st, ln = slice_bounds(i, size, ctx)
             spec.append(("slice", st, ln))
             out_shape.append(ln)
         elif isinstance(i, LamTensor):
@@ -321,16 +330,22 @@ def setitem(t: LamTensor, idx, value, ctx=None):
                 oidx.append(j)
         if cond is False:
             return old(*src)
-        v = value_at(value, oidx, [o for o in out_shape])
         if cond is True:
-            return v
+            return value_at(value, oidx, [o for o in out_shape])
+        # the right-hand side exists only for indices inside the assigned region: anything
+        # recorded while evaluating it (e.g. denominators) is guarded by the region condition
+        GUARDS.append(cond)
+        try:
+            v = value_at(value, oidx, [o for o in out_shape])
+        finally:
+            GUARDS.pop()
         return ops.ite(cond, v, old(*src))
 
     t.fn = fn
 
 
 import ast as _ast
-_GE, _LT = _ast.GtE, _ast.Lt
+_GE, _LT, _LE = _ast.GtE, _ast.Lt, _ast.LtE
 
 
 def _as_bool(v):
